@@ -47,7 +47,8 @@ func main() {
 	if r.Thorough() {
 		dl = 30 * time.Minute
 	}
-	netsim.RunScenarios(r, scen, netsim.Options{Prop: "C01", Rules: []string{"C01"}, Deadline: dl})
+	netsim.RunScenarios(r, scen, netsim.Options{Prop: "C01", Rules: []string{"C01"}, Deadline: dl,
+		Monitors: func() []netsim.Monitor { return []netsim.Monitor{netsim.NewSafety(), &netsim.BlockSync{}} }})
 	r.Set("rule", "every execution of the netsim harness (real ConsensusState x N, Byzantine validator held by the explorer) with at most `completed_bound` deviations; "+
 		"non-trivial = ran to a terminal outcome (not cut by state-key pruning)")
 	r.Assume("validators: 4, one Byzantine (< 1/3 of the power); heights <= 2; rounds <= 5; the block-sync path is checked by the sub-harness when present")
